@@ -139,6 +139,17 @@ CHECKS = {
              "removed for git), and with respect_gitignore off it must equal the listing with no .gitignore at all.",
         note="Trusted: git 2.39 with a private HOME and neutral configuration as the oracle.",
         ref="DESIGN.md §2 C18"),
+    "C17": dict(
+        level="exploration",
+        technique="bounded-exhaustive enumeration of ignore-file placement x rule x settings x argument sequences in every order x listing orders on a universe tree; comparison with an independent reference walk",
+        text="On a universe tree (files around the size limit, other extensions, hidden files, default- and user-excluded directories, the same "
+             "directory name at several places, links to files and directories inside and outside, a dangling link, a cycle; with and without "
+             "the links) a .flowmarkignore is placed at 4 places with each of 8 rule sets; for each of 8 setting combinations every sequence of "
+             "up to 2 (quick) / 3 (thorough) arguments out of 12 (directories, explicit files incl. excluded / oversized / linked ones, globs) in "
+             "every order and under two directory listing orders is resolved and must equal an independent reference walk written from the property "
+             "text (own gitignore matcher, validated against git): absolute, sorted, unique, independent of argument and listing order.",
+        note="Trusted: the reference walk and vf/ignore_ref.py (agrees with git on all 600 one- and two-line pattern sets of the C18 alphabet).",
+        ref="DESIGN.md §2 C17"),
     "C05": dict(
         level="model_checking",
         technique="explicit-state model of the greedy filler, exhaustive trace enumeration + replay of every trace against the implementation",
